@@ -40,6 +40,12 @@ fn pos_pool() -> Vec<f64> {
 
 impl Conc {
     pub fn new(rng: &mut Rng, exactxy: bool) -> Conc {
+        Self::new_with(rng, exactxy, None, false)
+    }
+
+    /// `k`: the exponent of the exact X/Y concretisation (id * 2^k) instead of a random one;
+    /// `xy_nan`: id 50 is a NaN in the X/Y table too (for checks where X/Y are only carried, not compared)
+    pub fn new_with(rng: &mut Rng, exactxy: bool, kfix: Option<i32>, xy_nan: bool) -> Conc {
         let mut zm = BTreeMap::new();
         // below no-data: -8 < -7 < -6 < ND
         let lows: Vec<f64> = {
@@ -76,7 +82,7 @@ impl Conc {
         let mut xy = BTreeMap::new();
         let descr;
         if exactxy {
-            let k = rng.range(-40, 40) as i32;
+            let k = kfix.unwrap_or_else(|| rng.range(-40, 40) as i32);
             for v in IDMIN..=IDMAX {
                 xy.insert(v, (v as f64) * 2f64.powi(k));
             }
@@ -97,6 +103,9 @@ impl Conc {
                 xy.insert(1 + k as i32, pp[*i]);
             }
             descr = "xy = ranked specials".to_string();
+        }
+        if xy_nan {
+            xy.insert(NANV, f64::from_bits(0x7ff8_0000_0000_0abc));
         }
         let rev_xy = xy.iter().map(|(k, v)| (v.to_bits(), *k)).collect();
         let rev_zm = zm.iter().map(|(k, v)| (v.to_bits(), *k)).collect();
@@ -130,7 +139,10 @@ impl Conc {
 
     fn check(&self) {
         let mut prev: Option<f64> = None;
-        for (_, v) in self.xy.iter() {
+        for (k, v) in self.xy.iter() {
+            if *k == NANV {
+                continue;
+            }
             if let Some(p) = prev {
                 assert!(p < *v, "xy table not strictly increasing");
             }
